@@ -56,7 +56,17 @@ row("crate::log::<impl %s>::log" % U, "assert:Overflow", "Overflow(Sub:bit_len()
     "bit_len, the statement of C06 for bit_len)")
 row("crate::algorithms::mul::submul_nx1", "assert:Overflow", "Overflow(Add:borrow,carry)",
     "borrow + carry at the end of the multiply-subtract loop: borrow <= 1 and carry, the high half of a * b + carry_in, "
-    "is <= 2^64 - 2 (kernel value contract, C15 N/A; reviewed)")
+    "is <= 2^64 - 2 (kernel value contract: arithmetic of C15, not decided; reviewed)")
+
+for fn_, a_ in (("shift_left_small", "Shl"), ("shift_right_small", "Shr")):
+    row("crate::algorithms::shift::%s" % fn_, "assert:Overflow", "Overflow(%s:*limb,amount)" % a_,
+        "limb shifted by `amount`: documented precondition amount < 64 (debug_assert!(amount < 64), the sub-limb step of "
+        "a shift). Accepted for the kernel as an entry point; carried to callers as the guard amount >= 64, which every "
+        "caller's intervals must refute",
+        entry_precondition=True)
+    row("crate::algorithms::shift::%s" % fn_, "assert:Overflow", "Overflow(Sub:64,amount)",
+        "64 - amount: same documented precondition amount < 64 (the subtraction wraps only for amount > 64)",
+        entry_precondition=True)
 
 if __name__ == "__main__":
     out = os.path.join(os.path.dirname(os.path.dirname(os.path.abspath(__file__))), "overflow.json")
